@@ -84,6 +84,10 @@ def cases(tier, seed):
             for S in ([0], [1], [0, 1], [1, 0]):
                 add("ptrace.index", dict(sys=S, dims=[d, e], sysform="list", dimform="scalar"), "partial_trace/scalar-dim")
             add("ptrace.index", dict(sys=[1], dims=[d, e], sysform="int", dimform="scalar"), "partial_trace/scalar-dim")
+            add("ptrace.index", dict(sys=[1], dims=[d, e], sysform="list", dimform="list", sys_omitted=True), "partial_trace/sys-omitted-dim-given")
+            for f in (1, 2, 3):
+                add("ptrace.index", dict(sys=[1], dims=[d, e, f], sysform="list", dimform="list", sys_omitted=True), "partial_trace/sys-omitted-dim-given")
+                add("ptrace.index", dict(sys=[1], dims=[f, d, e, 2], sysform="list", dimform="array", sys_omitted=True), "partial_trace/sys-omitted-dim-given")
     for d in (2, 3, 4, 5, 6, 7):
         add("ptrace.index", dict(sys=[1], dims=[d, d], sysform="list", dimform="omitted", sys_omitted=True), "partial_trace/omitted")
         add("ptrace.index", dict(sys=[0], dims=[d, d], sysform="list", dimform="omitted"), "partial_trace/omitted-dim")
